@@ -25,7 +25,7 @@ class CheckC18(core.Check):
     rule = (
         "case = batch of direct calls on the objects the default and ring resolvers return: hash (0..3 blocks, chunked input), HMAC (keys 0..block "
         "length), Noise HKDF (1/2/3 outputs), AEAD encrypt/decrypt (boundary and random nonces incl. every single high byte set, AD and plaintext "
-        "lengths around block boundaries up to 65519, genuine / tag-flipped / body-flipped / wrong-nonce / wrong-AD / truncated inputs), REKEY, "
+        "lengths around block boundaries up to 65519 and decryption of 65519..70000-byte plaintexts, objects keyed twice with keys sharing a prefix, genuine / tag-flipped / body-flipped / wrong-nonce / wrong-AD / truncated inputs), REKEY, "
         "X25519 and P-256 (RFC vectors, random, clamping cases, low-order / non-canonical / off-curve points), key generation with the OS RNG; "
         "each output compared with the model; distinct key = (backend, primitive, operation, input class); non-trivial = output compared"
     )
@@ -71,7 +71,12 @@ class CheckC18(core.Check):
                     ad = rnd.randbytes(rnd.choice([0, 0, 1, 32, 64, 65]))
                     ptl = rnd.choice(LENS) if i % 9 else rnd.choice([65519, 20000])
                     pt = gen_bytes("pt%d%s" % (i, ci), ptl)
-                    ops.append(("prim_enc", dict(res=res, choice=ci, key=key, n=n, ad=ad, pt=pt if ptl <= 4097 else "gen:%d:pt%d%s" % (ptl, i, ci), slack=rnd.choice([0, 0, 7])), ("enc", ci, key, n, ad, pt)))
+                    # every third object was keyed before, with a key that shares a prefix (or all but one byte) with the real one
+                    key0 = None
+                    if i % 3 == 0:
+                        cut = rnd.choice([1, 8, 16, 31])
+                        key0 = key[:cut] + rnd.randbytes(32 - cut)
+                    ops.append(("prim_enc", dict(res=res, choice=ci, key=key, key0=key0, n=n, ad=ad, pt=pt if ptl <= 4097 else "gen:%d:pt%d%s" % (ptl, i, ci), slack=rnd.choice([0, 0, 7])), ("enc", ci, key, n, ad, pt)))
                     if ptl <= 4097:
                         ct = prims.aead_encrypt(ci, key, n, ad, pt)
                         var = rnd.choice(["genuine", "genuine", "tag", "body", "nonce", "ad", "trunc", "ext", "key"])
@@ -97,6 +102,11 @@ class CheckC18(core.Check):
                         # output buffers: exact, 1..15 spare bytes (ring's copy path with slack), message length, larger
                         buf = rnd.choice([len(ct2) - 16, len(ct2) - 16 + rnd.randrange(1, 16), len(ct2) - 16 + rnd.randrange(1, 16), len(ct2), len(ct2) + 9, 70000]) if len(ct2) >= 16 else 100
                         ops.append(("prim_dec", dict(res=res, choice=ci, key=k2, n=n2, ad=ad2, ct=ct2, buf=buf), ("dec", ci, k2, n2, ad2, ct2)))
+                # decryption must invert encryption at every length - also beyond what a Noise message can carry
+                for ptl in (65519, 65520, 65535, 65536, 70000):
+                    key, n, ad = rnd.randbytes(32), rnd.choice(NONCES), rnd.randbytes(rnd.choice([0, 32]))
+                    ct = prims.aead_encrypt(ci, key, n, ad, gen_bytes("bigpt%d%s" % (ptl, ci), ptl))
+                    ops.append(("prim_dec", dict(res=res, choice=ci, key=key, n=n, ad=ad, ct=ct, buf=rnd.choice([ptl, ptl + 16, 140000])), ("dec", ci, key, n, ad, ct)))
                 for i in range(8 * mul):
                     key = rnd.randbytes(32)
                     times = rnd.choice([1, 1, 2, 5])
